@@ -285,6 +285,7 @@ type Line struct {
 	Panic     string         ` + "`json:\"panic,omitempty\"`" + `
 	RoundTrip bool           ` + "`json:\"roundTrip\"`" + `
 	Back      map[string]any ` + "`json:\"back,omitempty\"`" + `
+	Fields    map[string]string ` + "`json:\"fields,omitempty\"`" + ` // json.Marshal of each exported field value on its own
 }
 
 func emit(l Line) {
@@ -328,6 +329,16 @@ func RunValues(seed int64, k int) {
 						return
 					}
 					l.Doc = string(doc)
+					if t.Kind() == reflect.Struct {
+						l.Fields = map[string]string{}
+						for fi := 0; fi < t.NumField(); fi++ {
+							if t.Field(fi).IsExported() {
+								if fb, err := json.Marshal(v.Field(fi).Interface()); err == nil {
+									l.Fields[t.Field(fi).Name] = string(fb)
+								}
+							}
+						}
+					}
 					back := reflect.New(t)
 					if err := json.Unmarshal(doc, back.Interface()); err != nil {
 						l.UnmarshalErr = err.Error()
